@@ -102,16 +102,23 @@ def replay_behaviour(ctx, hist, ncursors, lazy):
             cursors[c] = conn.cursor()
     for k, h in enumerate(hist):
         c = h['c']
-        if c not in cursors:
-            cursors[c] = conn.cursor()
-        cur = cursors[c]
         arg = h['arg']
         if h['op'] == 'execute':
             arg = (h['arg'], h['obs']['desc'])
-        try:
-            ret = apply_op(cur, h['op'], arg)
-        except Exception as ex:  # noqa
-            ret = 'EXC:%s' % type(ex).__name__
+        via_conn = c not in cursors and h['op'] == 'execute' and (k + c) % 2 == 0
+        if via_conn:
+            # the Connection.execute shortcut hands out a new cursor
+            cursors[c] = conn.execute(parsed(stmt_for(*arg)))
+            ret = 'None'
+            cur = cursors[c]
+        else:
+            if c not in cursors:
+                cursors[c] = conn.cursor()
+            cur = cursors[c]
+            try:
+                ret = apply_op(cur, h['op'], arg)
+            except Exception as ex:  # noqa
+                ret = 'EXC:%s' % type(ex).__name__
         obs = observe(cur)
         if ret != h['val']:
             ctx.violation('cursor:%s:return' % h['op'], 'return value of %s' % h['op'],
@@ -230,7 +237,18 @@ def record_histories(ctx, path, ntraces, maxlen, ncursors=2):
             length = rng.randint(1, maxlen)
             for _ in range(length):
                 c = rng.randint(1, ncursors)
-                if c not in cursors:
+                fresh = c not in cursors
+                if fresh and rng.random() < 0.5:
+                    # first use of this cursor through the Connection.execute shortcut
+                    n = rng.choice([0, 1, 3, 8])
+                    cols = [COLS[0]] + rng.sample(COLS[1:], rng.randint(0, 2))
+                    cursors[c] = conn.execute(stmt_for(n, cols))
+                    o = observe(cursors[c])
+                    f.write(json.dumps({'tid': tid, 'c': c, 'arg': 0, 'n': n, 'op': 'execute', 'ret': [], 'rownumber': o['rownumber'],
+                                        'rowcount': o['rowcount'], 'arraysize': o['arraysize'], 'desc': o['desc']}) + '\n')
+                    nev += 1
+                    continue
+                if fresh:
                     cursors[c] = conn.cursor()
                 cur = cursors[c]
                 r = rng.random()
@@ -383,6 +401,10 @@ def run(ctx):
         ctx.sample({'leg': 'C2S', 'first_events': [json.loads(x) for x in f.read().split('\n')[:4]]})
     ctx.case('c2s', n=nev)
     validate_traces(ctx, path, nev, ntr, 'random histories, 2 cursors, <= 60 calls')
+    # ---- API grain: the cursor protocol composed with real statements (Beanquery.tla)
+    from harness import apicheck
+    ctx.tlc('MC_Beanquery', 'MC_Beanquery.cfg', leg='MC-api', workers=8)
+    apicheck.run(ctx, ctx.pick(3, 12), ctx.pick(40, 150), 14)
     ctx.exhaustive = False
 
 
